@@ -6,7 +6,14 @@ start/stop requests direct, by event, by queue event, from handlers of the modes
 the starting/stopping queue event open for some ticks), by ball end (game modes); user code of the mode registering
 handlers / switch handlers / delays on the mode at any moment of its life; mode devices with delayed control events (dict
 form) whose events are posted shortly before the mode stops - every DelayManager of the machine is tracked, the pending
-call is an owned delay of the mode in the model (adddl / firedl).
+call is an owned delay of the mode in the model (adddl / firedl).  Config players (light / show / coil / event / variable
+player) keyed on an event the harness posts as a QUEUE event while a far higher handler holds the queue open and the mode
+stops: every call of ConfigPlayer.config_play_callback and whether it went on to play() is logged (model: cfgplay), and what
+players record under a mode's context (light stacks, instances[context]) is a registry of its own (fx).  Conditional entries
+("{condition}": template subscriptions, event{condition}, conditional start events) with the variables changing at any time
+(model: cfgsub).  Delays and periodic tasks owned by mode devices are logged at DelayManager.add/remove/_process_delay_callback
+and clock.schedule_interval/unschedule (model: addtm / remtm / firetm, registry tm).  Custom mode code
+(harness/common/modecode_c07.py), persist_state devices, restart_on_next_ball, dict-form stop events.
 Every call of Mode.start/_started/_mode_started_callback/stop/_stopped/_mode_stopped_callback that actually happened is
 logged (class-level wrappers installed from this process) and replayed as the schedule of the Lean model
 (MpfVerif.Model.Mode), which answers not-enabled when that step could not happen then; posted lifecycle events, flags,
@@ -25,8 +32,8 @@ LEAN_MODULES = ["MpfVerif.Props.C07"]
 PROPS_FILE = "MpfVerif/Props/C07.lean"
 GEN = []
 MANIFEST = {
-  "text": "Proof on a Lean model of Mode.start/_started/_mode_started_callback/stop/_stopped/_mode_stopped_callback, ModeController.set_mode_state and the three registries (event handlers incl. the one-shot handler ModeController._player_turn_ended registers on mode_<n>_started for a game mode still starting at turn end, switch handlers, delays incl. pending delayed control-event calls of mode devices; every entry tagged with its owning mode and the mechanism that removes it) with every scheduler choice (which pending callback runs next, what user code registers when) an input: for ALL op sequences the lifecycle events posted for a mode form a prefix of (will_start starting started will_stop stopping stopped)*, active_modes is duplicate-free, contains exactly the modes whose active flag is set and is strictly sorted by (priority, name) descending, and whenever a mode's stop completes (its cleanup runs, in _mode_stopped_callback or at the beginning of a restart requested from a mode_<n>_stopped handler) no entry of the stopped run owned by it is left in any registry (a restarted mode owns exactly its fresh footprint and the late callback of the previous stop touches nothing) while entries of other modes are untouched, hence any number of complete cycles restores the registries; accepted starts/stops become pending steps that are enabled. The model is tied to mpf/core/mode.py and mode_controller.py on every check: generated mode sets run on a real machine, the observed call schedule is replayed on the Lean driver (not-enabled = disagreement), posted events, flags, active_modes and canonical registry dumps are compared at every quiescent point; an independent oracle checks the three clauses of the property on the real machine.",
-  "note": "Trusted: Lean kernel + {propext, Classical.choice, Quot.sound}; the hand-written model Model/Mode.lean (validated only by the differential runs); the event bus (C01/C02) is not re-modelled: which callback runs when is an input. Mode footprints (which handlers a configuration registers in start / on started and which mechanism removes them) are calibrated on the real machine, not derived. Not claimed: a stop requested from a mode_<n>_started handler runs mode_stop before mode_start when mode_<n>_stopping has no handlers (custom mode code only).",
+  "text": "Proof on a Lean model of Mode.start/_started/_mode_started_callback/stop/_stopped/_mode_stopped_callback, ModeController.set_mode_state and five registries (event handlers incl. the one-shot handler ModeController._player_turn_ended registers on mode_<n>_started for a game mode still starting at turn end; switch handlers; delays incl. pending delayed control-event calls of mode devices; what config players record under the mode's context - light stack entries, show instances, enabled coils; delays and periodic tasks owned by mode devices - timer ticks and pauses, logic-block timeouts, sequence-shot timeouts, shot delay switches, ball-save timers; every entry tagged with its owning mode and the mechanism that removes it) with every scheduler choice (which pending callback runs next, what user code registers when, when an entry of a config player is called - also from the snapshot of a queue event's handler list taken before the mode stopped -, when a conditional entry is re-evaluated, when a device schedules, cancels or fires a timer) an input: for ALL op sequences the lifecycle events posted for a mode form a prefix of (will_start starting started will_stop stopping stopped)*, active_modes is duplicate-free, contains exactly the modes whose active flag is set and is strictly sorted by (priority, name) descending, and whenever a mode's stop completes (its cleanup runs, in _mode_stopped_callback or at the beginning of a restart requested from a mode_<n>_stopped handler) no entry of the stopped run owned by it is left in any of the five registries (a restarted mode owns exactly its fresh footprint and the late callback of the previous stop touches nothing) while entries of other modes are untouched, hence any number of complete cycles restores the registries; a config-player entry called for a mode that is not active changes nothing and nothing is recorded under the context of a mode that is neither starting nor active (config_player_effects_die_with_mode); a device timer exists only while its mode's devices are loaded and none is left after the cleanup (device_timers_die_with_mode); accepted starts/stops become pending steps that are enabled. The model is tied to mpf/core/mode.py, mode_controller.py, config_player.py (config_play_callback, subscriptions, mode_stop/clear_context) and the device-owned DelayManagers on every check: generated mode sets run on a real machine, the observed call schedule is replayed on the Lean driver (not-enabled = disagreement; played/skipped of every config_play_callback compared), posted events, flags, active_modes and canonical dumps of all five registries are compared at every quiescent point; an independent oracle checks the three clauses of the property on the real machine incl. light stacks and every config player's instances[context].",
+  "note": "Trusted: Lean kernel + {propext, Classical.choice, Quot.sound}; the hand-written model Model/Mode.lean (validated only by the differential runs); the event bus (C01/C02) is not re-modelled: which callback runs when is an input. Mode footprints (which handlers a configuration registers in start / on started and which mechanism removes them) are calibrated on the real machine, not derived. Not claimed: a stop requested from a mode_<n>_started handler runs mode_stop before mode_start when mode_<n>_stopping has no handlers (custom mode code only); handlers of a mode other than config-player entries (device control events, add_mode_event_handler) that are still in a queue event's snapshot are called after the mode stopped (observed harmless, not generated); values a player merely remembers per context (event_player keeps the last value of a conditional entry and never clears it) are counted, not failed on.",
   "technique": "Lean 4 theorems (invariants by induction over op sequences) on a hand model + schedule-replaying differential correspondence with real modes + independent oracle",
   "translated": False,
  }
@@ -36,7 +43,15 @@ RULE = ("cases: 1-3 modes drawn from a pool (priorities with ties, game / non-ga
         "posted at grid instants 0-3 ticks before a stop / stop event / ball end) / devices with their OWN delay manager or "
         "periodic task (timers incl. timed pauses and every control-event action, sequence-shot timeouts, shot delay "
         "switches, ball saves: bursts 'start the timer, pause/add/reset, stop the mode inside the pause'; oracle: no device "
-        "event after the mode stopped, no periodic task left), game modes whose starting queue event is "
+        "event after the mode stopped, no periodic task left; every add/remove/fire on a device-owned DelayManager and "
+        "schedule_interval/unschedule is an op of the model) / config players (light, show, coil, event, variable player) keyed "
+        "on an event qe_<n> posted as a QUEUE event with a handler at priority 100000 holding the queue 0/3/6/10 ticks while the "
+        "mode stops (direct, stop event, ball end) and possibly starts again before the release / conditional entries "
+        "({condition} template subscriptions over one and two machine variables and a player variable, event{condition}, "
+        "conditional start event; variables set before, during and after the mode's run, also from lifecycle hooks; at most "
+        "one such mode per case) / persist_state counters, accruals, shots with restart_on_next_ball / custom mode code "
+        "(mode_start and mode_stop registering a handler, a switch handler, a delay and posting events; stop events in dict "
+        "form with a delay), game modes whose starting queue event is "
         "held open across one or two turn ends (ball end; also the game ending first), 0-4 hooks on "
         "lifecycle events (start/stop of any mode, delay / handler / switch handler registered on the mode, wait+clear "
         "later on queue events, priority above or below the mode's own handlers), 3-14 top-level ops (start, stop, start/"
@@ -49,11 +64,19 @@ TRUSTED = [
     "run is logged from the implementation and given to the model as its schedule; the model decides enabledness only)",
     "mode footprints (handlers registered by devices / config players of a mode configuration) are calibrated on the "
     "real machine in one isolated cycle per mode and only their presence per removal mechanism is modelled",
-    "Model/Mode.lean is hand-written; tied to mpf/core/mode.py, mode_controller.py by correspondence on every run",
+    "Model/Mode.lean is hand-written; tied to mpf/core/mode.py, mode_controller.py, config_player.py by correspondence on every run",
+    "observation points are made quiescent by running what is READY on the loop (call_soon callbacks) without letting time "
+    "pass: a cancelled subscription's handlers go one loop iteration after _stopped",
+    "which config-player sections leave something under the context (light/show/coil) and which only act (event/variable "
+    "player) is a table of the harness (SECTIONS); subscription handlers (EventManager._wait_handler) carry no owner, so "
+    "at most one mode with conditional entries is generated per case",
 ]
 ASSUMPTIONS = ["handlers, delays and switch handlers registered on behalf of a mode are registered between its start() and "
                "its _mode_stopped_callback (mode code does not register things on a mode that is not running)",
-               "no exception escapes a handler; the machine is not shutting down"]
+               "no exception escapes a handler; the machine is not shutting down",
+               "a mode device schedules delays / periodic tasks only while it is loaded in its mode (addTm is not enabled otherwise: "
+               "the correspondence reports a device that does); conditional entries are re-evaluated only between start() and "
+               "_stopped (cfgSub likewise)"]
 
 GRID = 0.125
 TURN_END_CB = "ModeController._stop_mode_started_at_turn_end"
@@ -73,6 +96,12 @@ switches:
 lights:
   l_c07:
     number: 1
+  l_c07b:
+    number: 2
+coils:
+  k_c07:
+    number: 1
+    allow_enable: true
 game:
   balls_per_game: 5
 modes:
@@ -237,6 +266,8 @@ sequence_shots:
   ss_{n}:
     event_sequence: e1_{n}, e2_{n}
     sequence_timeout: 1s
+    delay_event_list:
+      e1d_{n}: 1s
 shots:
   sh_{n}:
     switch: s_shot
@@ -248,6 +279,98 @@ ball_saves:
     hurry_up_time: 500ms
     grace_period: 500ms
     enable_events: bsen_{n}
+""",
+    # config players keyed on an event qe_<n> that the harness posts as a QUEUE event while a higher-priority handler holds
+    # the queue: the snapshot of the handler list still contains the entries when the mode stops during the hold
+    "cfgq": """
+light_player:
+  qe_{n}:
+    l_c07: red
+show_player:
+  qe_{n}: sh_c07
+event_player:
+  qe_{n}: qpong_{n}
+coil_player:
+  qe_{n}:
+    k_c07: enable
+""",
+    "gamecfgq": """
+light_player:
+  qe_{n}:
+    l_c07b: blue
+  mode_{n}_started:
+    l_c07: red
+show_player:
+  qe_{n}:
+    sh_c07:
+      loops: 1
+variable_player:
+  qe_{n}:
+    score: 100
+event_player:
+  qe_{n}: qpong_{n}
+""",
+    # conditional entries: "{{condition}}" keys are template SUBSCRIPTIONS (EventManager.wait_for_event handlers on
+    # machine_var_* / player_* events, re-made whenever a variable changes, cancelled by unload_player_events),
+    # event{{condition}} keys are handler conditions; the mode's start_events carry a condition as well
+    "cond": """
+light_player:
+  "{{machine.c07a==1 and machine.c07b==2}}":
+    l_c07: red
+event_player:
+  "{{machine.c07a==1}}": cpong_{n}
+  ping_{n}{{machine.c07b==2}}: pong_{n}
+show_player:
+  "{{machine.c07b==2}}": sh_c07
+""",
+    "gamecond": """
+light_player:
+  "{{current_player.c07p==1 and machine.c07a==1}}":
+    l_c07b: blue
+  ping_{n}{{current_player.c07p==1}}:
+    l_c07: red
+event_player:
+  "{{current_player.c07p==1}}": cpong_{n}
+counters:
+  c_{n}:
+    count_events: cnt_{n}{{machine.c07b==2}}
+    count_complete_value: 3
+""",
+    # mode devices with persist_state (state kept in the player across the mode's runs), the mode restarts on the next ball;
+    # explicit enable_events: a persisting block without them registers its auto-enable handler on mode_<n>_starting only in
+    # the player's first run of the mode, so the mode's footprint would depend on the player's history
+    "gamepersist": """
+counters:
+  c_{n}:
+    count_events: cnt_{n}
+    count_complete_value: 5
+    persist_state: true
+    enable_events: en_{n}
+    disable_events: dis_{n}
+accruals:
+  a_{n}:
+    events:
+      - x_{n}
+      - y_{n}
+    persist_state: true
+    enable_events: en_{n}
+shots:
+  sh_{n}:
+    switch: s_shot
+    persist_enable: true
+""",
+    # custom mode code (harness/common/modecode_c07.py): mode_start registers a handler, a switch handler and a delay on the mode, mode_stop
+    # registers more and posts events; stop events in dict form with a delay
+    "code": """
+counters:
+  c_{n}:
+    count_events: cnt_{n}
+    count_complete_value: 3
+""",
+    "gamecode": """
+shots:
+  sh_{n}:
+    switch: s_shot
 """,
     "gamey": """
 shots:
@@ -280,18 +403,45 @@ POOL = [
     # shot delay switch, ball save timers): everything they scheduled must die with the mode
     ("m1", 200, False, False, "timer"), ("m2", 300, False, False, "timerrun"), ("m3", 100, False, True, "timer"),
     ("m1", 150, True, False, "gametimer"), ("m2", 250, True, False, "gametimer"), ("m3", 200, True, False, "timerrun"),
+    # config players keyed on an event posted as a queue event that is held open across the mode's stop
+    ("m1", 200, False, False, "cfgq"), ("m2", 300, False, True, "cfgq"), ("m3", 100, False, False, "cfgq"),
+    ("m1", 250, True, False, "gamecfgq"), ("m2", 150, True, False, "gamecfgq"),
+    # persist_state devices + restart_on_next_ball; custom mode code; stop events in dict form with a delay
+    ("m1", 200, True, False, "gamepersist"), ("m2", 300, True, False, "gamepersist"),
+    ("m1", 200, False, False, "code"), ("m2", 300, False, True, "code"), ("m3", 150, True, False, "gamecode"),
+    # conditional config-player entries (template subscriptions), conditional start event
+    ("m1", 200, False, False, "cond"), ("m2", 300, False, True, "cond"), ("m3", 100, False, False, "cond"),
+    ("m1", 250, True, False, "gamecond"), ("m3", 150, True, False, "gamecond"),
 ]
+CFGQ = ("cfgq", "gamecfgq")
+COND = ("cond", "gamecond")
+CODED = ("code", "gamecode")
+SHOWS = {"sh_c07": "- duration: 1s\n  lights:\n    l_c07b: green\n- duration: 1s\n  lights:\n    l_c07b: black\n"}
+# config-player sections: number in the model; below 100 = leaves something behind under the mode's context (light stack
+# entry, show instance, enabled coil) until clear_context, 100 and above = acts and is done (posts an event, adds a score)
+SECTIONS = {"light_player": 0, "show_player": 1, "coil_player": 2, "event_player": 100, "variable_player": 101,
+            "queue_relay_player": 102, "queue_event_player": 103, "random_event_player": 104}
 DELAYED_CTL = {"dly": ["arm_", "dis_", "rst_"], "gamedly": ["arm_", "rst_", "dis_", "rsn_"]}
 TIMER_EVS = ["tstart_", "tstop_", "tpause_", "tpause0_", "treset_", "tadd_"]
-OWN_TIMERS = {"timer": TIMER_EVS, "timerrun": TIMER_EVS, "gametimer": TIMER_EVS + ["e1_", "e2_", "bsen_"]}
+OWN_TIMERS = {"timer": TIMER_EVS, "timerrun": TIMER_EVS, "gametimer": TIMER_EVS + ["e1_", "e2_", "bsen_", "e1d_"]}
 DEV_EVENT_PREFIXES = ("timer_", "logicblock_", "sequence_shot_", "ball_save_", "shot_", "sh_", "ss_", "c_", "a_")
 DEV_EVENT_RE = re.compile(r"(?:^|_)(?:t|c|a|sh|ss|bs)_(m\d)(?:_|$)")
 
 
 def mode_yaml(name, prio, game_mode, wait, flavour):
-    head = ("mode:\n  start_events: start_%s\n  stop_events: stop_%s\n  priority: %d\n  game_mode: %s\n"
-            "  use_wait_queue: %s\n%s" % (name, name, prio, "true" if game_mode else "false", "true" if wait else "false",
+    starts = "start_%s" % name
+    if flavour in COND:
+        starts += ", cstart_%s{machine.c07a==1}" % name
+    stops = " stop_%s" % name
+    if flavour in CODED:
+        stops = "\n    stop_%s: 250ms\n    stop2_%s: 0" % (name, name)      # dict form, with a delay
+    head = ("mode:\n  start_events: %s\n  stop_events:%s\n  priority: %d\n  game_mode: %s\n"
+            "  use_wait_queue: %s\n%s" % (starts, stops, prio, "true" if game_mode else "false", "true" if wait else "false",
                                           "" if game_mode else "  stop_on_ball_end: false\n"))
+    if flavour == "gamepersist":
+        head += "  restart_on_next_ball: true\n"
+    if flavour in CODED:
+        head += "  code: harness.common.modecode_c07.C07Mode\n"
     return head + FLAVOURS[flavour].format(n=name)
 
 
@@ -300,7 +450,7 @@ def build_vm(case):
     names = sorted(case["modes"])
     cfg = BASE_CONFIG % "".join("  - %s\n" % n for n in names)
     modes = {n: mode_yaml(n, *case["modes"][n]) for n in names}
-    return VMachine(cfg, modes=modes, game=True)
+    return VMachine(cfg, modes=modes, shows=SHOWS, game=True)
 
 
 # ---------------------------------------------------------------------------------------------------------------------
@@ -359,8 +509,17 @@ def _install():
         r = Rec.cur
         if r is not None:
             r.periodic.append((t, cbname(callback)))
+            r.pt_added(t, callback)
         return t
     CB.schedule_interval = schedule_interval
+    o_us = CB.unschedule      # a staticmethod
+
+    def unschedule(event):
+        r = Rec.cur
+        if r is not None:
+            r.pt_removed(event)
+        return o_us(event)
+    CB.unschedule = staticmethod(unschedule)
     from mpf.core import mode_controller as mcmod
     MC = mcmod.ModeController
     if hasattr(MC, "_stop_mode_started_at_turn_end"):
@@ -397,6 +556,8 @@ def _install():
     def add(self, ms, callback, name=None, **kwargs):
         name = o_add(self, ms, callback, name, **kwargs)
         r = Rec.cur
+        if r is not None:
+            r.tm_added(self, name)
         md = kwargs.get("mode")
         if r is not None and md is not None and getattr(md, "name", None) in r.names:
             # the delayed control-event path (Mode._control_event_handler), on whichever manager it was scheduled
@@ -407,9 +568,78 @@ def _install():
         r = Rec.cur
         if r is not None:
             r.ctl_fired(self, name, callback)
+            r.tm_gone(self, name, "firetm")
         return o_fire(self, name, callback, **kwargs)
     DM.add = add
     DM._process_delay_callback = fire
+    o_remove = DM.remove
+
+    def remove(self, name):
+        r = Rec.cur
+        if r is not None and name in self.delays:
+            r.tm_gone(self, name, "remtm")
+        return o_remove(self, name)
+    DM.remove = remove
+    _install_config_players()
+
+
+def _install_config_players():
+    """log every call of ConfigPlayer.config_play_callback made for one of the case's modes and whether it went on to play()"""
+    import importlib
+    import pkgutil
+    import mpf.config_players as cps
+    from mpf.core import config_player as cpmod
+    for mi in pkgutil.iter_modules(cps.__path__):
+        try:
+            importlib.import_module("mpf.config_players." + mi.name)
+        except Exception:       # noqa - a player that cannot be imported cannot be registered by the machine either
+            pass
+    CP = cpmod.ConfigPlayer
+    o_cb = CP.config_play_callback
+
+    def config_play_callback(self, settings, calling_context, priority=0, mode=None, **kwargs):
+        r = Rec.cur
+        if r is None or mode is None or getattr(mode, "name", None) not in r.names:
+            return o_cb(self, settings, calling_context, priority, mode, **kwargs)
+        r.cfg_stack.append(False)
+        try:
+            return o_cb(self, settings, calling_context, priority, mode, **kwargs)
+        finally:
+            r.cfg_played(self, mode, r.cfg_stack.pop())
+    CP.config_play_callback = config_play_callback
+
+    def subclasses(c):
+        for x in c.__subclasses__():
+            yield x
+            yield from subclasses(x)
+
+    def wrap_play(cls):
+        orig = cls.__dict__["play"]
+
+        def play(self, *a, **kwargs):
+            r = Rec.cur
+            if r is not None and r.cfg_stack:
+                r.cfg_stack[-1] = True
+            return orig(self, *a, **kwargs)
+        play.__name__ = "play"
+        play.__qualname__ = getattr(orig, "__qualname__", "play")
+        cls.play = play
+    def wrap_sub(cls):
+        orig = cls.__dict__["handle_subscription_change"]
+
+        def handle_subscription_change(self, value, settings, priority, context, key):
+            r = Rec.cur
+            if r is not None and context in r.names:
+                r.L.append(("user", "cfgsub", context, SECTIONS.get(self.config_file_section, 199) + 10, bool(value)))
+                if not r.alive(context) or r.mode_state(context) == "idle":
+                    r.cfg_after_stop = r.cfg_after_stop or (context, self.config_file_section)
+            return orig(self, value, settings, priority, context, key)
+        cls.handle_subscription_change = handle_subscription_change
+    for cls in set(subclasses(CP)):
+        if "play" in cls.__dict__ and not getattr(cls.__dict__["play"], "__isabstractmethod__", False):
+            wrap_play(cls)
+        if "handle_subscription_change" in cls.__dict__:
+            wrap_sub(cls)
 
 
 def cbname(cb):
@@ -445,7 +675,11 @@ def dump_sw(machine):
 
 def dump_dl(machine):
     out = []
+    r = Rec.cur
+    own = r.device_managers() if r is not None else {}
     for i, dm in enumerate(getattr(machine, "_c07_dms", [])):
+        if id(dm) in own:
+            continue            # the delay manager of a mode device of the case: registry "tm" (Real.live_device_timers)
         for name, ent in dm.delays.items():
             cb = ent[1]        # (handle, callback) or (handle, callback, kwargs)
             r = Rec.cur
@@ -457,12 +691,75 @@ def dump_dl(machine):
     return sorted(out)
 
 
+REMEMBERED = set()
+
+
+def config_players(machine):
+    from mpf.core.config_player import ConfigPlayer
+    out = []
+    for a in sorted(vars(machine)):
+        if a.endswith("_player") and isinstance(getattr(machine, a, None), ConfigPlayer):
+            out.append(getattr(machine, a))
+    return out
+
+
+def dump_fx(machine):
+    """what config players leave behind: every entry of every light's stack, every non-empty instances[context][section]"""
+    out = []
+    for n, l in machine.lights.items():
+        for e in l.stack:
+            out.append(("light", n, str(e.key), e.priority))
+    for p in config_players(machine):
+        for ctx, d in p.instances.items():
+            for sec, dd in d.items():
+                for k, v in dd.items():
+                    if isinstance(v, (bool, int, float, str, type(None))):
+                        # a remembered VALUE (event_player keeps the last value of a conditional entry per context and never
+                        # clears it), not something that acts: not what the property speaks about - counted, see REMEMBERED
+                        REMEMBERED.add((sec, ctx))
+                        continue
+                    out.append(("inst", sec, ctx, str(k[0] if isinstance(k, tuple) else k)))
+    return sorted(out)
+
+
+def of_mode(e, m):
+    """is this footprint entry recorded under the context of mode m?  (light stack keys are context + key + ".light_player",
+    where key is empty for an event-keyed entry and the condition's text for a conditional one)"""
+    return (e[0] == "inst" and e[2] == m) or (e[0] == "light" and e[2].startswith(m) and e[2].endswith(".light_player"))
+
+
+def fx_of_mode(fx, m):
+    """model ids that have something recorded under the context of mode m: the section's number (SECTIONS) for an entry
+    keyed by an event, + 10 for a conditional entry (a template subscription)"""
+    ids = set()
+    for e in fx:
+        if e[0] == "inst" and e[2] == m:
+            sec = SECTIONS.get(e[1], 199)
+            plain = {"light_player": m + ".light_player", "show_player": "sh_c07"}.get(e[1])
+            ids.add(sec if plain is None or e[3] == plain else sec + 10)
+        elif e[0] == "light" and of_mode(e, m):
+            ids.add(0 if e[2] == m + ".light_player" else 10)
+    return sorted(ids)
+
+
 def dump_timers(machine):
     out = []
     for h in getattr(machine.clock.loop, "_scheduled", []):
         if not h.cancelled():
             out.append(cbname(h._callback))
     return sorted(out)
+
+
+def drain(vm):
+    """run what is READY on the loop without letting time pass: vm.advance() returns as soon as its own sleep is over, so
+    callbacks made ready at that very instant (call_soon: done-callbacks of cancelled futures, woken tasks) would otherwise
+    still be pending at the observation point"""
+    loop = vm.tc.loop
+    for _ in range(500):
+        if not loop._ready:
+            return
+        loop.run_once()
+    raise InfraError("the loop does not become idle")
 
 
 def msub(a, b):
@@ -502,6 +799,12 @@ class Real:
         self.hooks_off = False
         self.stop_event_ignored = None
         self.pend_cb = {n: 0 for n in self.names}     # _stopped done, _mode_stopped_callback not yet
+        self.tm = {}          # (id(device-owned delay manager), delay name) / ("pt", id(PeriodicTask)) -> uid
+        self.tm_keep = []     # keeps the PeriodicTask objects alive (ids are keys)
+        self.dev_dm = None    # id(delay manager of a mode device) -> mode name
+        self.cfg_stack = []   # config_play_callback calls in progress: did this one reach play()?
+        self.cfg_after_stop = None
+        self.hold_next = 0    # the next queue event qe_<n> is held open for that many ticks by the harness' handler
 
     # -- wrappers' callbacks ---------------------------------------------------------------------------------------
     def enter(self, name, mode, a, kw):
@@ -549,6 +852,71 @@ class Real:
         if not self.alive(m) and self.dev_event_after_stop is None:
             self.dev_event_after_stop = (m, event)
 
+    # -- delays and periodic tasks owned by mode devices -----------------------------------------------------------
+    def device_managers(self):
+        if self.dev_dm is None:
+            from mpf.core.delays import DelayManager
+            self.dev_dm = {}
+            for coll in self.machine.device_manager.collections.values():
+                for dev in coll.values():
+                    m = re.search(r"_(m\d)$", getattr(dev, "name", "") or "")
+                    dm = getattr(dev, "delay", None)
+                    if m and m.group(1) in self.names and isinstance(dm, DelayManager):
+                        self.dev_dm[id(dm)] = m.group(1)
+        return self.dev_dm
+
+    def tm_added(self, dm, name):
+        m = self.device_managers().get(id(dm))
+        if m is None or (id(dm), name) in self.tm:      # a delay added under an existing name replaces it
+            return
+        self.uid += 1
+        self.tm[(id(dm), name)] = self.uid
+        self.user[self.uid] = ("tm", m)
+        self.L.append(("user", "addtm", m, self.uid))
+
+    def tm_gone(self, dm, name, how):
+        u = self.tm.pop((id(dm), name), None)
+        if u is not None:
+            self.L.append(("user", how, self.user[u][1], u))
+
+    def pt_added(self, task, callback):
+        m = re.search(r"_(m\d)$", getattr(getattr(callback, "__self__", None), "name", "") or "")
+        if not m or m.group(1) not in self.names:
+            return
+        self.uid += 1
+        self.tm[("pt", id(task))] = self.uid
+        self.tm_keep.append(task)
+        self.user[self.uid] = ("tm", m.group(1))
+        self.L.append(("user", "addtm", m.group(1), self.uid))
+
+    def pt_removed(self, task):
+        u = self.tm.pop(("pt", id(task)), None)
+        if u is not None:
+            self.L.append(("user", "remtm", self.user[u][1], u))
+
+    def live_device_timers(self):
+        """from the machine, not from the log: pending delays on device-owned managers and live periodic tasks of devices"""
+        out = []
+        dms = {id(dm): dm for dm in getattr(self.machine, "_c07_dms", [])}
+        for did, m in self.device_managers().items():
+            for name in dms[did].delays:
+                u = self.tm.get((did, name))
+                out.append((u if u is not None else -1, m))
+        seen = set()
+        for t, n in self.periodic:
+            mm = re.search(r"_(m\d)$", n)
+            if not t._canceled and mm and mm.group(1) in self.names and id(t) not in seen:
+                seen.add(id(t))
+                u = self.tm.get(("pt", id(t)))
+                out.append((u if u is not None else -1, mm.group(1)))
+        return sorted(out)
+
+    def cfg_played(self, player, mode, played):
+        sec = SECTIONS.get(player.config_file_section, 199)
+        self.L.append(("user", "cfgplay", mode.name, sec, bool(played)))
+        if played and not mode.active and self.cfg_after_stop is None:
+            self.cfg_after_stop = (mode.name, player.config_file_section)
+
     def turn_handlers(self):
         out = {}
         for n in self.names:
@@ -588,7 +956,7 @@ class Real:
 
     def dumps(self):
         return {"bus": dump_bus(self.machine), "sw": dump_sw(self.machine), "dl": dump_dl(self.machine),
-                "pt": self.live_periodic()}
+                "pt": self.live_periodic(), "fx": dump_fx(self.machine), "tm": self.live_device_timers()}
 
     # -- user code -------------------------------------------------------------------------------------------------
     def deadline(self, ticks):
@@ -621,6 +989,15 @@ class Real:
         elif k == "qev":
             sn = len(self.L)
             self.machine.events.post_queue(a[1], lambda **kwargs: self.L.append(("qcb", sn)))
+        elif k == "setvar":
+            self.machine.variables.set_machine_var(a[1], a[2])
+        elif k == "setpvar":
+            if self.machine.game and self.machine.game.player:
+                self.machine.game.player[a[1]] = a[2]
+        elif k == "qhold":
+            sn = len(self.L)
+            self.hold_next = a[2]
+            self.machine.events.post_queue("qe_" + a[1], lambda **kwargs: self.L.append(("qcb", sn)))
         elif k == "delay":
             self.uid += 1
             u = self.uid
@@ -667,7 +1044,7 @@ class Real:
             self.vm.hit_switch("s_c07", 0)
         elif k == "poke":
             for n in sorted(self.names):
-                for e in ("u_", "ping_", "cnt_", "x_", "y_", "en_"):
+                for e in ("u_", "ping_", "cnt_", "x_", "y_", "en_", "qe_"):
                     self.machine.events.post(e + n)
         else:
             raise InfraError("bad act %r" % (a,))
@@ -690,17 +1067,34 @@ class Real:
                     self.act(a, queue=kwargs.get("queue"))
             self.machine.events.add_handler(ev, handler, h["prio"], _c07="hook%d" % i)
 
+    def install_holders(self):
+        """a handler far above every mode's config-player entries on qe_<n>: holds the queue event open when asked to"""
+        for n in sorted(self.names):
+            if self.case["modes"][n][3] not in CFGQ:
+                continue
+
+            def holder(**kwargs):
+                k, self.hold_next = self.hold_next, 0
+                q = kwargs.get("queue")
+                if k and q is not None:
+                    q.wait()
+                    self.L.append(("hold",))
+                    self.machine.delay.add(ms=self.deadline(k) * 1000, callback=q.clear)
+            self.machine.events.add_handler("qe_" + n, holder, 100000, _c07="qh")
+
     def quiescent(self):
+        drain(self.vm)
         snap = {n: (bool(m.active), bool(m._starting), bool(m.stopping), m.priority)
                 for n, m in sorted(self.machine.modes.items()) if n in self.names}
         self.L.append(("q", snap, [m.name for m in self.machine.mode_controller.active_modes if m.name in self.names],
-                       self.dumps(), dump_timers(self.machine)))
+                       self.dumps(), dump_timers(self.machine), sorted(n for n in self.names if self.pend_cb[n] > 0)))
 
     def run(self):
         crash = None
         Rec.cur = self
         try:
             self.install_hooks()
+            self.install_holders()
             self.vm.run()
             if self.case["game"]:
                 self.vm.start_game()
@@ -815,14 +1209,28 @@ def oracle0(case, real, crash):
             return "fired-after-stop:" + {"dl": "delay", "h": "handler", "sw": "switch-handler", "ctl": "control-event"}[kind], \
                 {"mode": m, "what": kind, "id": u}
     for e in L:
+        if e[0] == "q":
+            # what config players recorded under the context of a mode that is stopped (light stack entries, show instances,
+            # enabled coils): "the machine's registries are exactly what they were before it started"
+            for n, st in sorted(e[1].items()):
+                if not (st[0] or st[1] or st[2]) and n not in e[5]:
+                    left = [x for x in e[3]["fx"] if x not in real.base["fx"] and of_mode(x, n)]
+                    if left:
+                        return "registry-leak:config-player-footprint", {"mode": n, "left_behind": left[:6]}
         if e[0] == "q" and not any(st[0] or st[1] or st[2] for st in e[1].values()):
-            for reg in ("bus", "sw", "dl", "pt"):
+            extra, missing = msub(e[3]["fx"], real.base["fx"])
+            if extra or missing:
+                return "registry-leak:config-player-footprint", {"left_behind": extra[:6], "missing": missing[:6]}
+            for reg in ("bus", "sw", "dl", "tm", "pt"):
                 extra, missing = msub(e[3][reg], real.base[reg])
                 if reg == "bus" and any(x[2] == TURN_END_CB for x in extra):
                     return "turn-end-handler-left-behind", {"left_behind": [x for x in extra if x[2] == TURN_END_CB][:4]}
+                if reg == "bus" and extra and not missing and all(x[2] == "partial(EventManager._wait_handler)" for x in extra):
+                    # handlers of EventManager.wait_for_event futures: template subscriptions of conditional entries
+                    return "registry-leak:template-subscription-handlers", {"left_behind": extra[:6], "events": sorted({x[0] for x in extra})}
                 if extra or missing:
                     kinds = sorted({x[2].split(".")[0] if reg == "bus" else str(x[-1]).split(".")[0] for x in extra + missing})
-                    return "registry-leak:" + {"bus": "event-handlers", "sw": "switch-handlers", "dl": "delays", "pt": "periodic-tasks"}[reg], \
+                    return "registry-leak:" + {"bus": "event-handlers", "sw": "switch-handlers", "dl": "delays", "tm": "delays", "pt": "periodic-tasks"}[reg], \
                         {"left_behind": extra[:6], "missing": missing[:6], "kinds": kinds}
             if not case["game"] and e is last_q:      # a cancelled periodic task leaves the heap at its next wake-up
                 extra, missing = msub(e[4], real.base_timers)
@@ -860,6 +1268,8 @@ def gen_case(r):
     r.shuffle(pool)
     for p in pool:
         if p[0] not in chosen and len(chosen) < k:
+            if p[4] in COND and any(v[3] in COND for v in chosen.values()):
+                continue    # subscription handlers (EventManager._wait_handler) carry no owner: two such modes look alike
             chosen[p[0]] = list(p[1:])
     names = sorted(chosen)
     game = any(v[1] for v in chosen.values()) or r.random() < 0.15
@@ -946,7 +1356,7 @@ def gen_case(r):
         elif x < 0.8:
             burst += [["ev", r.choice(evs) + m] for _ in range(r.choice([1, 2]))]
         if chosen[m][3] == "gametimer" and r.random() < 0.5:
-            burst += [["ev", r.choice(["e1_", "bsen_"]) + m]] + ([["hitsw"]] if r.random() < 0.5 else [])
+            burst += [["ev", r.choice(["e1_", "bsen_", "e1d_"]) + m]] + ([["hitsw"]] if r.random() < 0.5 else [])
         gap = r.choice([0, 1, 2, 4])
         if gap:
             burst.append(["adv", gap])
@@ -954,6 +1364,50 @@ def gen_case(r):
         burst.append(["adv", r.choice([1, 4, 24])])
         at = r.randint(0, len(ops))
         ops[at:at] = burst
+    cq = [m for m in names if chosen[m][3] in CFGQ]
+    for _ in range(r.choice([1, 2, 3]) if cq else 0):
+        # qe_<m> posted as a queue event, held open by a handler far above the mode's config-player entries; the mode stops
+        # (completely) during the hold, then the queue is released: the entries are still in the dispatcher's snapshot
+        m = r.choice(cq)
+        burst = [["ev", "start_" + m] if not chosen[m][2] or r.random() < 0.5 else ["qev", "start_" + m], ["adv", r.choice([1, 2])]]
+        if r.random() < 0.3:
+            burst.append(["ev", "qe_" + m])      # an ordinary play while the mode is up
+        burst.append(["qhold", m, r.choice([0, 3, 6, 10])])
+        if r.random() < 0.8:
+            if r.random() < 0.3:
+                burst.append(["adv", 1])
+            burst.append(r.choice([["stop", m], ["ev", "stop_" + m]] + ([["ballend"]] if chosen[m][1] else [])))
+            if r.random() < 0.25:
+                burst += [["adv", r.choice([1, 2])], ["ev", "start_" + m]]     # up again (a new run) when the queue is released
+        burst.append(["adv", r.choice([1, 4, 12])])
+        at = r.randint(0, len(ops))
+        ops[at:at] = burst
+    cd = [m for m in names if chosen[m][3] in COND]
+    if cd:
+        def setv():
+            if game and r.random() < 0.4:
+                return ["setpvar", "c07p", r.choice([0, 1, 1, 2])]
+            return ["setvar", r.choice(["c07a", "c07b"]), r.choice([0, 1, 2])]
+        for _ in range(r.choice([1, 2, 3])):
+            # the variables of the conditions change while the mode is up (every change re-makes the subscription), before
+            # it starts and after it stopped; the conditional start event is posted with the condition true and false
+            m = r.choice(cd)
+            burst = [setv() for _ in range(r.choice([0, 1]))]
+            burst.append(r.choice([["ev", "start_" + m], ["ev", "cstart_" + m], ["ev", "cstart_" + m]]))
+            burst.append(["adv", r.choice([1, 2])])
+            for _ in range(r.choice([1, 2, 4])):
+                burst.append(setv())
+                if r.random() < 0.5:
+                    burst.append(["ev", r.choice(["ping_", "cnt_"]) + m])
+            burst.append(r.choice([["stop", m], ["ev", "stop_" + m]] + ([["ballend"]] if chosen[m][1] else [])))
+            if r.random() < 0.5:
+                burst.append(setv())
+            burst.append(["adv", r.choice([1, 4])])
+            at = r.randint(0, len(ops))
+            ops[at:at] = burst
+        for h in hooks:
+            if r.random() < 0.3:
+                h["acts"].insert(r.randint(0, len(h["acts"])), setv())
     for o in ops:
         if o[0] in ("addh", "addsw"):
             del o[2:]
@@ -991,14 +1445,17 @@ def calibrate(name, spec):
             vm.advance(1)
             if not vm.machine.modes[name].active:
                 raise InfraError("calibration: mode %s did not start" % name)
+            drain(vm)
             s2 = real.dumps()
             real.act(["stop", name])
             vm.advance(1)
+            drain(vm)
+            s5 = real.dumps()
         finally:
             Rec.cur = None
         s1 = real.snaps[(name, "start")]
         s3 = real.snaps[(name, "_stopped")]
-        s4 = real.snaps[(name, "_mode_stopped_callback")]
+        s4 = real.snaps[(name, "_mode_stopped_callback")]      # noqa: F841 (kept for debugging)
         prio = spec[0]
 
         def rel(ents):
@@ -1007,7 +1464,8 @@ def calibrate(name, spec):
         cfg, _ = msub(s2["bus"], s3["bus"])
         st, _ = msub(s1["bus"], s0["bus"])
         own, _ = msub(st, cfg)
-        leak = [msub(s4[k], s0[k]) for k in ("bus", "sw", "dl")]
+        # at the quiescent point after the stop (a cancelled subscription's handlers go in the next iteration of the loop)
+        leak = [msub(s5[k], s0[k]) for k in ("bus", "sw", "dl", "tm", "fx")]
         res = {"own": rel(own), "cfg": rel(cfg), "dev": rel(dev), "leak": leak if any(a or b for a, b in leak) else None}
         _CAL[key] = res
         return res
@@ -1074,10 +1532,45 @@ def real_state_line(case, real, q, cal):
         return bool(m) and m.group(1) in snap and any(snap[m.group(1)][:3])
     bus = [e for e in bus if not device_handler_of_running_mode(e)]
     line += " | sw=" + sws + " | dl=" + dls
-    extra = bus + missing + rsw + msw + rdl + mdl
+    fx, mfx = msub(dumps["fx"], real.base["fx"])
+    fxs = []
+    for n in sorted(case["modes"]):
+        ids = fx_of_mode(fx, n)
+        fxs += ["%d.%d" % (mid(n), i) for i in ids]
+        fx = [e for e in fx if not of_mode(e, n)]
+    # light stack entries written by a running show belong to the show instance (already counted under its context)
+    fx = [e for e in fx if not ((e[0] == "light" and e[2].startswith("show_")) or (e[0] == "inst" and e[2].startswith("show_")))]
+    line += " | fx=" + ",".join(fxs)
+    line += " | tm=" + ",".join("%d.%d" % (mid(m), u) for u, m in dumps["tm"])
+    extra = bus + missing + rsw + msw + rdl + mdl + fx + mfx
     if extra:
         line += " | unexplained=" + repr(extra[:5])
     return line
+
+
+INNER_OPS = ("cfgplay", "cfgsub", "addtm", "remtm", "firetm")
+
+
+def user_op(e, window, ops, exp):
+    """e = ("user", kind, mode, ...) logged outside a lifecycle call (window None) or inside the call `window`"""
+    if e[1] == "cfgplay":
+        ops.append("cfgplay %d %d" % (mid(e[2]), e[3]))
+        exp.append("played" if e[4] else "skipped")
+    elif e[1] in ("addh", "addsw", "adddl"):
+        ops.append("%s %d %d" % (e[1], mid(e[2]), e[3]))
+        exp.append("ok")
+    elif e[1] == "cfgsub":
+        ops.append("cfgsub %d %d %d" % (mid(e[2]), e[3], 1 if e[4] else 0))
+        exp.append("ok")
+    elif e[1] in ("addtm", "firetm"):
+        ops.append("%s %d %d" % (e[1], mid(e[2]), e[3]))
+        exp.append("ok")
+    elif e[1] == "remtm":
+        # a removal made by the cleanup of a stop (device_removed_from_mode in _finish_stop: from _mode_stopped_callback or
+        # at the beginning of a restart) is what the model's cleanup has to do by itself
+        if window not in ("_mode_stopped_callback", "start"):
+            ops.append("remtm %d %d" % (mid(e[2]), e[3]))
+            exp.append("ok")
 
 
 def schedule(case, real, cal):
@@ -1098,12 +1591,22 @@ def schedule(case, real, cal):
             if e[4] != 0:
                 return None
             posts = []
+            inner = []
             j = i + 1
             while L[j][0] != "ret":
                 if L[j][0] == "post":
                     posts.append(ABBR[L[j][2]] + str(mid(L[j][1])))
                 elif L[j][0] == "call":
                     return None
+                elif L[j][0] == "user" and L[j][1] in INNER_OPS:
+                    inner.append(L[j])
+                elif L[j][0] == "user" and L[j][1] in ("addh", "addsw", "adddl"):
+                    # custom mode code: mode_stop() runs inside _finish_stop before the cleanup, mode_start() in the callback
+                    if e[1] in ("_mode_stopped_callback", "start"):
+                        ops.append("%s %d %d" % (L[j][1], mid(L[j][2]), L[j][3]))
+                        exp.append("ok")
+                    else:
+                        inner.append(L[j])
                 j += 1
             m = mid(e[2])
             if e[1] == "start":
@@ -1115,10 +1618,14 @@ def schedule(case, real, cal):
             else:
                 ops.append("%s %d" % (names[e[1]], m))
                 exp.append(" ".join(posts) or "ok")
+            for u in inner:
+                user_op(u, e[1], ops, exp)
             i = j
         elif e[0] == "user" and e[1] == "turnend":
             ops.append("turnend %d" % mid(e[2]))
             exp.append("ok")
+        elif e[0] == "user" and e[1] in INNER_OPS:
+            user_op(e, None, ops, exp)
         elif e[0] == "user":
             ops.append("%s %d %d" % (e[1], mid(e[2]), e[3]))
             exp.append("ok")
@@ -1183,6 +1690,13 @@ def one_case(ctx, model, case, sample=True):
         ctx.count("delayed_control_call_died_with_mode", sum(1 for e in real.L if e[0] == "ctl") - sum(1 for f in real.fired if f[0] == "ctl"))
         if case["game"] and cycles_done(real) == 0:
             ctx.count("vacuous_no_cycle")
+        if real.cfg_after_stop:
+            ctx.count("observation_config_player_played_for_inactive_mode")
+        for e in real.L:
+            if e[0] == "q" and not any(st[0] or st[1] or st[2] for st in e[1].values()) and REMEMBERED:
+                ctx.count("observation_remembered_subscription_value_survives_stop")
+                break
+    REMEMBERED.clear()
     res = oracle(case, real, crash)
     if res is not None:
         if res[0] in KNOWN_SIGS and any(f["signature"] == res[0] for f in ctx.failures):
@@ -1196,7 +1710,10 @@ def one_case(ctx, model, case, sample=True):
         for n in case["modes"]:
             cal[n] = calibrate(n, case["modes"][n])
             if cal[n]["leak"]:
-                ctx.fail("registry-leak:calibration-cycle", {"kind": "modes", "game": bool(case["modes"][n][1]),
+                lk = cal[n]["leak"]
+                only_wait = all(x[2] == "partial(EventManager._wait_handler)" for x in lk[0][0]) and lk[0][0] and \
+                    not lk[0][1] and not any(a or b for a, b in lk[1:])
+                ctx.fail("registry-leak:template-subscription-handlers" if only_wait else "registry-leak:calibration-cycle", {"kind": "modes", "game": bool(case["modes"][n][1]),
                                                              "modes": {n: case["modes"][n]}, "hooks": [],
                                                              "ops": [["start", n, None], ["adv", 8], ["stop", n]]},
                          {"leak": cal[n]["leak"]})
@@ -1254,6 +1771,41 @@ def corpus():
     c.append({"kind": "modes", "game": True, "modes": {"m2": [200, True, False, "plain"]},
               "hooks": [{"mode": "m2", "phase": "starting", "prio": 1, "acts": [["wait", 9]]}],
               "ops": [["ev", "start_m2"], ["ballend"], ["ballend"], ["ballend"], ["ballend"], ["ballend"], ["adv", 16]]})
+    # config players keyed on an event posted as a QUEUE event which a higher handler holds open while the mode stops
+    # completely: the entries are still in the dispatcher's snapshot when the queue is released (config_play_callback's guard);
+    # second cycle: the mode is up again (a new run) when the queue is released
+    c.append({"kind": "modes", "game": False, "modes": {"m1": [200, False, False, "cfgq"]}, "hooks": [],
+              "ops": [["ev", "start_m1"], ["adv", 2], ["ev", "qe_m1"], ["qhold", "m1", 6], ["stop", "m1"], ["adv", 12],
+                      ["ev", "start_m1"], ["adv", 1], ["qhold", "m1", 6], ["ev", "stop_m1"], ["adv", 1], ["ev", "start_m1"], ["adv", 12]]})
+    c.append({"kind": "modes", "game": True, "modes": {"m1": [250, True, False, "gamecfgq"]}, "hooks": [],
+              "ops": [["ev", "start_m1"], ["adv", 2], ["qhold", "m1", 10], ["ballend"], ["adv", 16]]})
+    # conditional entries (template subscriptions): variables change while the mode is up (one and two variables per
+    # condition), the mode stops; stop and restart inside one run of the event queue (a subscription cancelled before its
+    # task ran for the first time); custom mode code; persist_state devices with restart_on_next_ball
+    c.append({"kind": "modes", "game": False, "modes": {"m1": [200, False, False, "cond"]}, "hooks": [],
+              "ops": [["ev", "start_m1"], ["adv", 2], ["setvar", "c07a", 1], ["setvar", "c07a", 2], ["setvar", "c07a", 1],
+                      ["setvar", "c07b", 2], ["ev", "ping_m1"], ["stop", "m1"], ["adv", 4], ["setvar", "c07a", 1],
+                      ["ev", "cstart_m1"], ["adv", 2], ["setvar", "c07b", 1], ["ev", "stop_m1"], ["adv", 4]]})
+    c.append({"kind": "modes", "game": False, "modes": {"m2": [300, False, True, "cond"]},
+              "hooks": [{"mode": "m2", "phase": "started", "prio": 5000, "acts": [["stop", "m2"]]},
+                        {"mode": "m2", "phase": "stopped", "prio": 1, "acts": [["start", "m2"]]}],
+              "ops": [["start", "m2", None], ["adv", 4]]})
+    # a player variable of a condition changes (the subscription fires) and the mode stops in the same run of the event queue:
+    # the subscription must not be made again after unload_player_events (found by the thorough stream, fixed)
+    c.append({"kind": "modes", "game": True,
+              "modes": {"m1": [200, False, False, "dly"], "m2": [250, True, False, "gametimer"], "m3": [150, True, False, "gamecond"]},
+              "hooks": [{"mode": "m2", "phase": "stopping", "prio": 1, "acts": [["stop", "m3"]]},
+                        {"mode": "m2", "phase": "will_stop", "prio": 1, "acts": [["setpvar", "c07p", 1], ["ev", "start_m3"], ["stop", "m2"]]}],
+              "ops": [["qev", "start_m3"], ["ev", "start_m2"], ["ev", "stop_m2"]]})
+    c.append({"kind": "modes", "game": True, "modes": {"m1": [250, True, False, "gamecond"]}, "hooks": [],
+              "ops": [["start", "m1", None], ["adv", 2], ["setpvar", "c07p", 1], ["setvar", "c07a", 1], ["ev", "ping_m1"],
+                      ["ballend"], ["adv", 8]]})
+    c.append({"kind": "modes", "game": True, "modes": {"m1": [200, False, False, "code"], "m3": [150, True, False, "gamecode"]},
+              "hooks": [], "ops": [["ev", "start_m1"], ["ev", "start_m3"], ["adv", 2], ["hitsw"], ["ev", "stop_m1"], ["adv", 4],
+                                   ["ev", "stop2_m3"], ["adv", 4], ["ev", "start_m3"], ["adv", 1], ["ballend"], ["adv", 8]]})
+    c.append({"kind": "modes", "game": True, "modes": {"m1": [200, True, False, "gamepersist"]}, "hooks": [],
+              "ops": [["ev", "start_m1"], ["adv", 2], ["ev", "en_m1"], ["ev", "cnt_m1"], ["ballend"], ["adv", 8], ["ev", "cnt_m1"],
+                      ["ev", "stop_m1"], ["adv", 2], ["ev", "start_m1"], ["adv", 2], ["ballend"], ["adv", 8]]})
     # use_wait_queue mode started by a queue event, stopping held open, a second mode overlapping at the same priority
     c.append({"kind": "modes", "game": False, "modes": {"m1": [200, False, True, "plain"], "m2": [200, False, False, "plain"]},
               "hooks": [{"mode": "m1", "phase": "stopping", "prio": 1, "acts": [["wait", 5]]},
